@@ -78,7 +78,9 @@ class GraphQLSyntaxError(GraphQLResponseError):
         if self._highlighted is not None:
             return self._highlighted
 
-        highlight = highlight_location(self.source, self.position)
+        highlight = highlight_location(
+            self.source, min(self.position, len(self.source))
+        )
         self._highlighted = "%s %s" % (self.message, highlight)
         return self._highlighted
 
@@ -86,7 +88,9 @@ class GraphQLSyntaxError(GraphQLResponseError):
         return self.highlighted
 
     def to_dict(self) -> Dict[str, Any]:
-        line, col = index_to_loc(self.source, self.position)
+        line, col = index_to_loc(
+            self.source, min(self.position, len(self.source))
+        )
         return {
             "message": str(self),
             "locations": [{"line": line, "columne": col}],
